@@ -147,12 +147,77 @@ Section FileStack.
       end
     else true.
 
+  (* ---- add_files_once (fix 517e7a0) ---- *)
+  (* `add_files` as it is now: `directories: &mut HashSet<PathBuf>` holds the
+     canonical paths of the directories read so far, a directory met again
+     (through a link to itself or to a parent) is skipped (`continue`).  The
+     set is [dirs.1] (used through membership only); [dirs.2] is not in the
+     code: it records that the `continue` was taken at least once, so that the
+     premise "no directory was met twice" of the theorems that speak about
+     [Spec.named] can be evaluated on every run.  A directory that cannot be
+     canonicalised (`if let Ok(directory)` fails) is read without being
+     recorded.  The function [add_files] above — the code before the fix — is
+     kept: with the flag false both compute the same (Proofs:
+     add_files_once_bridge), and it is the enumerator the specification side
+     and C02's proofs are stated about. *)
+  Fixpoint add_files_once (fuel : nat) (named : bool) (paths : list path)
+           (dirs : list path * bool) (acc : list path * list report)
+      : outcome ((list path * bool) * (list path * list report)) :=
+    match fuel with
+    | O => OutOfFuel
+    | S fuel' =>
+      (fix go (paths : list path) (dirs : list path * bool) (acc : list path * list report)
+         : outcome ((list path * bool) * (list path * list report)) :=
+         match paths with
+         | [] => Ok (dirs, acc)
+         | p :: rest =>
+           if is_dir p then
+             match canon p with
+             | Some d =>
+               if decide (d ∈ dirs.1) then go rest (dirs.1, true) acc
+               else
+                 match read_dir p with
+                 | Some names =>
+                   let* r := add_files_once fuel' false (map (join p) names) (d :: dirs.1, dirs.2) acc in
+                   go rest r.1 r.2
+                 | None => go rest (d :: dirs.1, dirs.2) acc
+                 end
+             | None =>
+               match read_dir p with
+               | Some names =>
+                 let* r := add_files_once fuel' false (map (join p) names) dirs acc in go rest r.1 r.2
+               | None => go rest dirs acc
+               end
+             end
+           else if named || ext_circom p then
+             match canon p with
+             | Some c => go rest dirs (c :: acc.1, acc.2)
+             | None => go rest dirs (acc.1, acc.2 ++ [FileOsError p])
+             end
+           else go rest dirs acc
+         end) paths dirs acc
+    end.
+
   (* ---- FileStack::new ---- *)
   Definition new (fuel : nat) (paths libs : list path) (reports : list report)
       : outcome (file_stack * list report) :=
     let '(ls, reports) := add_libraries libs reports in
+    let* r := add_files_once fuel true paths ([], false) ([], reports) in
+    Ok (FileStack None [] r.2.1 ls r.2.1, r.2.2).
+
+  (* the code before 517e7a0 (every spelling of a named directory expanded) *)
+  Definition new_all (fuel : nat) (paths libs : list path) (reports : list report)
+      : outcome (file_stack * list report) :=
+    let '(ls, reports) := add_libraries libs reports in
     let* r := add_files fuel true paths ([], reports) in
     Ok (FileStack None [] r.1 ls r.1, r.2).
+
+  (* was a directory met twice while the named paths were expanded? *)
+  Definition dirs_revisited (fuel : nat) (paths libs : list path) : bool :=
+    match add_files_once fuel true paths ([], false) ([], (add_libraries libs []).2) with
+    | Ok r => r.1.2
+    | _ => false
+    end.
 
   (* ---- include_library: the `for lib in &self.libraries` loop ---- *)
   Fixpoint search_libraries (d23 : bool) (inc : path) (libs : list library) : outcome (option path) :=
@@ -395,6 +460,8 @@ Definition dir_fuel : nat := 64.
 (* the two premises of the theorems about [run_project], decided on the table *)
 Definition depth_ok_b (d : fs_data) (argv : list spath) : bool :=
   forallb (depth_le_b (d_is_dir d) (d_read_dir d) s_join 63) argv.
+Definition dirs_revisited_b (d : fs_data) (argv libs : list spath) : bool :=
+  dirs_revisited (d_canon d) (d_is_dir d) (d_read_dir d) s_join s_ext_circom dir_fuel argv libs.
 
 Definition run_project (d23 : bool) (d : fs_data) (argv libs : list spath) : outcome (parse_state (path:=spath)) :=
   parse_files (d_canon d) (d_is_dir d) (d_is_file d) (d_read_dir d) s_join s_parent s_file_name s_ext_circom
